@@ -56,7 +56,7 @@ def run(ctx):
     rng, lean = ctx.rng, ctx.lean
     pyhf.set_backend('numpy', precision='64b')
     for i in range(ctx.n(120, 4000)):
-        kind = rng.choice(['disjoint', 'disjoint', 'identical', 'conflict', 'obs-conflict', 'meas-shared', 'version', 'merge-samples'])
+        kind = rng.choice(['disjoint', 'disjoint', 'identical', 'conflict', 'obs-conflict', 'meas-shared', 'version', 'merge-samples', 'merge-common-sample'])
         L = gen_ws(rng, rng.sample(['A', 'B', 'C'], rng.randint(1, 2)))
         names_r = rng.sample(['D', 'E', 'F'], rng.randint(1, 2))
         R = gen_ws(rng, names_r, meas=rng.choice(['meas', 'meas2']) if kind != 'meas-shared' else 'meas')
@@ -77,7 +77,15 @@ def run(ctx):
             c = copy.deepcopy(L['channels'][0])
             for sm in c['samples']: sm['name'] = 'other_' + sm['name']
             R['channels'].append(c); R['observations'].append(copy.deepcopy(L['observations'][0]))
-        join = rng.choice(JOINS); merge = rng.random() < (0.3 if kind != 'merge-samples' else 0.8)
+        elif kind == 'merge-common-sample':
+            # same channel on both sides; one sample carries the same name with different yields, each side has a sample of its own
+            c = copy.deepcopy(L['channels'][0])
+            for k_, sm in enumerate(c['samples']):
+                if k_ == 0: sm['data'] = [x + 7.0 for x in sm['data']]
+                else: sm['name'] = 'other_' + sm['name']
+            R['channels'].append(c); R['observations'].append(copy.deepcopy(L['observations'][0]))
+        join = rng.choice(JOINS) if kind != 'merge-common-sample' else rng.choice(['left outer', 'right outer'])
+        merge = rng.random() < (0.3 if kind not in ('merge-samples', 'merge-common-sample') else 0.8)
         fl, fr = copy.deepcopy(L), copy.deepcopy(R)
         try:
             wl = pyhf.Workspace(L); wr = pyhf.Workspace(R, validate=(kind != 'version'))
@@ -143,6 +151,14 @@ def run(ctx):
             want = [sm['name'] for sm in fl['channels'][0]['samples']] + ['other_' + sm['name'] for sm in fl['channels'][0]['samples']]
             if sorted(got) != sorted(want):
                 ctx.fail('C16/merge-samples', 'channel merging does not keep the samples of both sides', inp, got, want)
+        if kind == 'merge-common-sample' and merge and out is not None:
+            # the documented precedence: `left outer` keeps the left definition of an item present on both sides, `right outer` the right
+            o = dict(out); cn = fl['channels'][0]['name']; sn = fl['channels'][0]['samples'][0]['name']
+            got = [sm for c in o['channels'] if c['name'] == cn for sm in c['samples'] if sm['name'] == sn]
+            src = fl if join == 'left outer' else fr
+            want = [sm for c in src['channels'] if c['name'] == cn for sm in c['samples'] if sm['name'] == sn]
+            if join in ('left outer', 'right outer') and got != want:
+                ctx.fail('C16/outer-precedence', 'a sample defined on both sides of a merged channel is not taken from the side the join names', inp, got, want)
         if kind != 'disjoint': ctx.nontrivial(json.dumps([fl, fr, join, merge], sort_keys=True))
         if i < 2: ctx.sample({'pair_kind': kind, 'join': join, 'merge': merge, 'outcome': err or 'ok', 'left_channels': [c['name'] for c in fl['channels']], 'right_channels': [c['name'] for c in fr['channels']]})
     # ---------------- _prune_and_rename: random requests vs the Lean model
